@@ -34,7 +34,7 @@ Qed.
    states are optimal by C02_noTC and truthful by C01/C08).  Same side hypotheses as C02. *)
 Theorem C03_noTC : forall courses parts esize shrinkf smin smax k1 st1 k2 st2,
   Valid courses parts -> in_tc courses parts = false ->
-  (forall nd, match run_full courses parts esize shrinkf None nd with Val _ => True | _ => False end) ->
+  (forall nd, run_full courses parts esize shrinkf None nd <> HOverflow) ->
   (forall a, (score_of courses parts a <= smax)%Z) ->
   SReach courses parts esize shrinkf None smin smax k1 st1 -> 0 < k1 -> C02.final st1 ->
   SReach courses parts esize shrinkf None smin smax k2 st2 -> 0 < k2 -> C02.final st2 ->
